@@ -437,6 +437,43 @@ def hardening_events(ctx, quick, idc):
             else:
                 ev.append({"op": "Mixed", "kind": "contains", "q": list(q), "cl": [list(p)], "ms": [_jm(p, R)], "bs": [], "res": Q.contains(M, Perm(p), M)})
     ev.extend(derivation_events(ctx, quick, rnd))
+    ev.extend(long_perm_events(ctx, quick, rnd))
+    return ev
+
+
+def long_perm_events(ctx, quick, rnd):
+    """Permutations of 17-40 entries (extreme entries at the ends, in the middle, next to each other; random ones) against
+    mesh patterns of one or two points whose shading touches the border rows and columns - the cells an implementation
+    is tempted to treat specially once gaps get wide."""
+    ev = []
+    for it in range(60 if quick else 500):
+        n = rnd.choice([17, 18, 20, 24, 31, 32, 33, 40])
+        base = list(range(n))
+        kind = it % 6
+        if kind == 0:
+            q = [n - 1] + base[1:n - 1] + [0]                       # maximum first, minimum last, increasing in between
+        elif kind == 1:
+            q = base[1:n // 2] + [n - 1] + base[n // 2:n - 1] + [0]  # maximum in the middle, minimum last
+        elif kind == 2:
+            q = [0] + base[2:] + [1]
+        elif kind == 3:
+            q = base[::-1]
+            i = rnd.randrange(n - 1)
+            q[i], q[i + 1] = q[i + 1], q[i]
+        else:
+            q = list(util.rand_perm(rnd, n))
+        k = rnd.choice([1, 1, 2])
+        p = util.rand_perm(rnd, k)
+        border = [(a, b) for a in range(k + 1) for b in range(k + 1) if a in (0, k) or b in (0, k)]
+        R = sorted(set(rnd.sample(border, rnd.randint(1, min(3, len(border)))) + ([(rnd.randint(0, k), rnd.randint(0, k))] if rnd.random() < 0.3 else [])))
+        M = MeshPatt(Perm(p), R)
+        Q = Perm(q)
+        st, got = util.call(lambda: sorted(list(t) for t in M.occurrences_in(Q)))
+        if st == "raise":
+            ctx.violation({"kind": "long permutation", "pattern": _jm(p, R), "q": q}, "NoException", "a listing", got)
+            continue
+        ev.append(dict(_jm(p, R), op="Occ", q=q, res=got))
+        ev.append({"op": "Mixed", "kind": "contains", "q": q, "cl": [], "ms": [_jm(p, R)], "bs": [], "res": Q.contains(M)})
     return ev
 
 
